@@ -143,3 +143,41 @@ def run(db, res, rule='C02.h'):
                         else:
                             n -= 1
     res.floor(rule, 'loops with two lock-step cursors', n, 2)
+
+
+def run_single_step(db, res, rule, functions):
+    """A whitespace skip or trim that steps once: an `if` (not a loop condition) that tests htp_is_lws / htp_is_space /
+    htp_is_folding_char on data[E] and whose taken branch moves a local that E mentions by one.  Every skip of that kind in the
+    line parsers is a loop; one that is not strips a single byte where the wire may have several."""
+    res.rule(rule, 'blank skipping is a loop: in the request/response line and header parsers no `if` tests a byte for blankness (htp_is_lws / htp_is_space) at data[E] and then moves a cursor that E mentions by one step - every such skip or trim is the condition of a loop, so any number of blanks is skipped')
+    nloops = 0
+    for name in functions:
+        f = db.fn.get(name)
+        if f is None or not f.blocks:
+            continue
+        loop_heads = {h for h, body in C.loops(f)}
+        for b in f.blocks:
+            c = f.cond_of(b)
+            if not c:
+                continue
+            calls = [x for x in nodes(c[0], lambda y: y.get('k') == 'call' and y.get('callee') in ('htp_is_lws', 'htp_is_space'))]
+            if not calls:
+                continue
+            idx = [strip(a) for x in calls for a in x.get('args', [])]
+            vs = {v['name'] for a in idx if a is not None for v in nodes(a, lambda y: y.get('k') == 'var' and y.get('decl') == 'local') if 'data' not in v['name']}
+            if not vs:
+                continue
+            # is this condition block part of a loop (it reaches itself)?
+            inloop = any(b in body for h, body in C.loops(f))
+            if inloop:
+                nloops += 1
+                continue
+            # not a loop: does the taken branch step one of the cursors the test mentions?
+            tb = c[1]
+            stepped = [w for st in f.blocks[tb]['stmts'] for w in nodes(st, lambda y: (y.get('k') == 'un' and y.get('op', '').replace('post', '') in ('++', '--')) or (y.get('k') == 'assign' and y.get('op') in ('+=', '-=')))
+                       if (strip(w.get('e') if w['k'] == 'un' else w.get('l')) or {}).get('name') in vs]
+            if stepped:
+                res.violated(rule, '%s:single-step-skip:%s' % (name, sorted(vs)[0]), '%s tests one byte for blankness and then moves `%s` by one step outside any loop: of several blanks only one is skipped (a field name followed by two blanks keeps one of them and is no longer found under its name)' % (name, sorted(vs)[0]), c[0]['loc'])
+    res.floor(rule, 'blank-skipping loops in the line parsers', nloops, 10)
+    if not [o for o in res.obs if o['rule'] == rule]:
+        res.holds(rule, 'line-parsers:no-single-step-skip', '%d blank-skipping loop conditions, no single-step skip' % nloops, '')
